@@ -14,7 +14,7 @@ ID = 'C08'
 LEVEL = 'exploration'
 RULE = ('bounded-operator formulas (one operator and 2-chains) x ALL equivalent spellings of their bounds: unit suffix in {none, s, ms, us, ns} on begin and '
         'on end independently (a missing suffix takes the other bound\'s unit, else the default unit), default unit spec.unit in {s, ms, us}, sampling period '
-        'in {1 s, 500 ms, 2 s, 250000 us} with the bounds scaled to it; x discrete offline / online / pastified online x all traces up to length n; every '
+        'in {1 s, 500 ms, 2 s, 250000 us; 100 ms, 0.1 s (a float), 300 us, 0.5 ms - the last four not exactly representable in binary or given as floats} with the bounds scaled to it and the time-stamps i*period rounded to floats; x discrete offline / online / pastified online x all traces up to length n; every '
         'spelling must return the reference rho of the sample-count bounds (hence all spellings agree); bounds that are NOT a multiple of the period '
         '(every spelling again) must raise RTAMTException at parse() or at the first evaluation and nothing else; dense time: default unit x suffixes '
         'with time-stamps rescaled consistently, compared with the dense reference; life layer: discrete offline objects configured and used under one of 5 configurations and then '
@@ -23,7 +23,17 @@ RULE = ('bounded-operator formulas (one operator and 2-chains) x ALL equivalent 
 ASSUMPTIONS = ['literals stay finite decimals; values V3/{-1,2}; the reference works in sample counts (discrete) / seconds (dense)']
 
 U = {'s': 10 ** 9, 'ms': 10 ** 6, 'us': 10 ** 3, 'ns': 1}
-PERIODS = ((1, 's'), (500, 'ms'), (2, 's'), (250000, 'us'))
+PERIODS = ((1, 's'), (500, 'ms'), (2, 's'), (250000, 'us'),
+           # periods that are not exactly representable in binary / are given as floats / in a small unit (second group, index >= N_DYADIC)
+           (100, 'ms'), (0.1, 's'), (300, 'us'), (0.5, 'ms'))
+N_DYADIC = 4
+
+
+def pns(p, pu):
+    """the period in ns, exactly (a float period is read through its shortest decimal spelling, as the user wrote it)"""
+    x = Fr(str(p)) * U[pu]
+    assert x.denominator == 1, (p, pu)
+    return int(x)
 DEFAULTS = ('s', 'ms', 'us')
 SUFFIX = ('', 's', 'ms', 'us', 'ns')
 
@@ -68,7 +78,7 @@ def site(case):
 
 def period_is_unit(case):
     p, pu = case['period']
-    return p * U[pu] == U[case['unit']]
+    return pns(p, pu) == U[case['unit']]
 
 
 def base_formulas(tier):
@@ -92,6 +102,8 @@ def shards(tier):
     fs = base_formulas(tier)
     for fi in range(len(fs)):
         for pi in range(len(PERIODS)):
+            if pi >= N_DYADIC and tier == 'quick' and (fi + pi) % 2:
+                continue        # quick tier: every formula meets two of the four decimal periods
             out.append({'mode': 'dt', 'fi': fi, 'pi': pi})
     for fi in range(len(fs)):
         if not F.has_op(fs[fi], ('prev', 's_prev', 'next', 's_next', 'rise', 'fall')):
@@ -170,7 +182,7 @@ def spell_formula(f, period_ns, du, choice):
 def run_dt(shard, tier, res, mod):
     f = base_formulas(tier)[shard['fi']]
     p, pu = PERIODS[shard['pi']]
-    period_ns = p * U[pu]
+    period_ns = pns(p, pu)
     vs = sorted(F.fvars(f))
     n = 4 if len(vs) == 1 else 3
     if tier == 'quick':
@@ -235,7 +247,7 @@ def run_dt(shard, tier, res, mod):
 def run_reject(shard, tier, res, mod):
     """bounds that are not an integer multiple of the sampling period"""
     p, pu = PERIODS[shard['pi']]
-    period_ns = p * U[pu]
+    period_ns = pns(p, pu)
     vs = ['x']
     w = {'x': [-1.0, 2.0, 0.0]}
     for op in ('once', 'historically', 'eventually', 'always'):
@@ -434,7 +446,7 @@ def replay(case):
     w = case['trace']
     spec = impl.build(case['kind'], case['spec'], case['vars'], unit=case['unit'], period=(p, pu), pastify=case['pastify'])
     nn = len(next(iter(w.values())))
-    times = [float(Fr(i * p * U[pu], U[case['unit']])) for i in range(nn)]
+    times = [float(Fr(i * pns(p, pu), U[case['unit']])) for i in range(nn)]
     k, vals = impl.outcome(kinds.dt_values, case['kind'], spec, w, times)
     if k != 'ok':
         return ['monitoring raised %s' % (vals,)]
